@@ -43,6 +43,7 @@ type SolveResult struct {
 
 type solverSpec struct {
 	name string
+	retryOnly bool
 	argv func(file string, timeoutS int, seed int) []string
 	// prep rewrites the query text for this solver (option ordering etc.)
 	prep func(q string) string
@@ -54,6 +55,20 @@ var solvers = []solverSpec{
 	}, prep: func(q string) string { return q }},
 	{name: "z3", argv: func(f string, t int, seed int) []string {
 		return []string{"z3", fmt.Sprintf("-T:%d", t), fmt.Sprintf("smt.random_seed=%d", seed), f}
+	}, prep: func(q string) string { return q }},
+	// more seeds of the newer z3: e-matching proofs vary a lot with the seed (0.3 s with one, a time-out with the
+	// next); used only for the second chance given to obligations that timed out
+	{name: "z3-new/s+1", retryOnly: true, argv: func(f string, t int, seed int) []string {
+		return []string{"z3-new", fmt.Sprintf("-T:%d", t), fmt.Sprintf("smt.random_seed=%d", seed+1), f}
+	}, prep: func(q string) string { return q }},
+	{name: "z3-new/s+2", retryOnly: true, argv: func(f string, t int, seed int) []string {
+		return []string{"z3-new", fmt.Sprintf("-T:%d", t), fmt.Sprintf("smt.random_seed=%d", seed+2), f}
+	}, prep: func(q string) string { return q }},
+	{name: "z3-new/s+3", retryOnly: true, argv: func(f string, t int, seed int) []string {
+		return []string{"z3-new", fmt.Sprintf("-T:%d", t), fmt.Sprintf("smt.random_seed=%d", seed+3), f}
+	}, prep: func(q string) string { return q }},
+	{name: "z3/s+1", retryOnly: true, argv: func(f string, t int, seed int) []string {
+		return []string{"z3", fmt.Sprintf("-T:%d", t), fmt.Sprintf("smt.random_seed=%d", seed+1), f}
 	}, prep: func(q string) string { return q }},
 	{name: "cvc5", argv: func(f string, t int, seed int) []string {
 		return []string{"cvc5", "--produce-models", fmt.Sprintf("--tlimit=%d", t*1000), fmt.Sprintf("--seed=%d", seed), f}
@@ -69,6 +84,7 @@ type solveOpts struct {
 	Backends  []string // subset of solver names; empty = all
 	NeedAgree int      // number of solvers that must answer unsat (thorough, QF only); 0/1 = first answer wins
 	KeepDir   string   // directory to keep query files in
+	AllSeeds  bool     // also run the extra-seed instances (second chance)
 }
 
 var scratchDir string
@@ -113,7 +129,9 @@ func solve(name string, query string, o solveOpts) SolveResult {
 	var use []solverSpec
 	for _, s := range solvers {
 		if len(o.Backends) == 0 {
-			use = append(use, s)
+			if !s.retryOnly || o.AllSeeds {
+				use = append(use, s)
+			}
 			continue
 		}
 		for _, b := range o.Backends {
@@ -126,7 +144,7 @@ func solve(name string, query string, o solveOpts) SolveResult {
 	for _, s := range use {
 		s := s
 		go func() {
-			f := base + "." + s.name + ".smt2"
+			f := base + "." + strings.ReplaceAll(s.name, "/", "_") + ".smt2"
 			os.WriteFile(f, []byte(s.prep(full)), 0o644)
 			t0 := time.Now()
 			argv := s.argv(f, o.TimeoutS, o.Seed)
